@@ -240,6 +240,53 @@ def l5_total(prog, rep):
     return n
 
 
+def l6_roundkeys(rep, cfg=cdb.HOST):
+    """The AES-NI expanded key has room for every round key that is written or read: the byte buffer behind the aligned pointer is at
+    least (largest round-key index used + 1) * sizeof(round key) + (alignment - 1) bytes, the largest index being taken over every
+    constant subscript of the round-key array in the unit and every value stored as the number of rounds (the cipher reads
+    rkeys[nr])."""
+    up = "crypto/crypto_aes_aesni.c"
+    prog = ir.Program([up], cfg)
+    if up not in prog.units:
+        return 0
+    u = prog.unit(up)
+    rec = None
+    for name, r in u.records.items():
+        fl = {x["name"]: x for x in r.get("fields", [])}
+        if "rkeys" in fl and "rkeys_buf" in fl:
+            rec, fields = name, fl
+    if rec is None:
+        rep.defer_broken("L6: the expanded-key record (rkeys / rkeys_buf) was not found in %s" % up)
+        return 0
+    esz = (u.types.get((u.types.get(fields["rkeys"]["ty"]) or {}).get("pointee", "")) or {}).get("size")
+    top = -1
+    where = None
+    align = None
+    for f in u.funcs:
+        if f.file != up:
+            continue
+        for e in f.all_elems():
+            if e.cls == "ArraySubscriptExpr":
+                t = norm(e)
+                if t[0] == "[]" and t[2][0] == "c" and ((t[1][0] == "v" and t[1][1] == "rkeys") or (t[1][0] == "." and t[1][2] == "rkeys")):
+                    if t[2][1] > top:
+                        top, where = t[2][1], e
+            if e.is_assign and e.op == "=" and norm(e.kid(0))[0] == "." and norm(e.kid(0))[2] == "nr" and norm(e.kid(1))[0] == "c":
+                if norm(e.kid(1))[1] > top:
+                    top, where = norm(e.kid(1))[1], e
+            if e.cls == "CallExpr" and e.callee == "align_ptr" and e.arg(0) is not None and any(isinstance(t, tuple) and t and t[0] == "." and t[2] == "rkeys_buf" for t in subterms(norm(e.arg(0)))):
+                a = norm(e.arg(1))
+                align = a[1] if a[0] == "c" else None
+    if top < 0 or not esz or not align:
+        rep.defer_broken("L6: no round-key index, element size or alignment found in %s" % up)
+        return 0
+    need = (top + 1) * esz + align - 1
+    have = fields["rkeys_buf"]["size"]
+    rep.check(have >= need, "L6-roundkeys", "the AES-NI key object holds round keys 0..%d behind its aligned pointer" % top, where.where,
+              "rkeys_buf is %d bytes; %d round keys of %d bytes after aligning to %d need %d" % (have, top + 1, esz, align, need), function=where.func.name if hasattr(where, "func") else "", construct="rkeys-room")
+    return 1
+
+
 def run(tier):
     rep = report.Report("C02", tier,
         "Decided: the counter block is written only by the agreed writers and has the layout nonce_be64 || blockindex_be64 in both the "
@@ -269,6 +316,8 @@ def run(tier):
         l1_l3(prog, rep)
         l2_l4(prog, rep)
         l5_total(prog, rep)
+    if l6_roundkeys(rep) < 1:
+        rep.defer_broken("L6: nothing decided about the AES-NI key object")
     # which implementation runs: the AES-NI stream code may be selected only when the key layer has validated and selected
     # AES-NI too (both work on the same expanded-key object); dispatch-safety rules shared with C03
     from . import c03
